@@ -20,7 +20,7 @@ OPTS = {'quick': dict(witnesses_per_case=4, budget_s=600), 'thorough': dict(witn
 
 
 def cases(tier, seed):
-    q = tier != 'thorough'
+    q = False          # the full bounds cost about a minute: quick and thorough coincide
     cs = [dict(name='get_components/n%d' % n, fn='get_components', kind='gc', n=n, weight=4 ** n, shard_depth=(5 if n >= 4 else None)) for n in (2, 3, 4)]
     cs.append(dict(name='get_components/n5', fn='get_components', kind='gc', n=5, weight=1000, shard_depth=6))
     if not q:
